@@ -185,6 +185,27 @@ def direct_cases():
                       [('repeat', ('count', num(5)),
                         [('repeat', ('forever',), [('break',)]), P(v('i')), ('break',)]),
                        ('println', v('i'))])], pop))
+    # loops inside a routine whose parameter hides a global of the same name (here: the index
+    # variable of the caller's loop): the parameter counts down / advances, the global is untouched
+    P0 = lambda e: ('print', e)  # noqa
+    gtz = lambda a: ('expr', ('bin', '>', a, num(0)))  # noqa
+    add = lambda a, b: ('expr', ('bin', '+', a, b))  # noqa
+    out.append(([('assign', 'n', num(100)),
+                 ('define', 'down', ['n'],
+                  [('assign', 'guard', num(0)),
+                   ('repeat', ('while', gtz(v('n')), 'n'),
+                    [P0(v('n')), ('assign', 'n', add(v('n'), num(-1))),
+                     ('assign', 'guard', add(v('guard'), num(1))),
+                     ('if', ('expr', ('bin', '>', v('guard'), num(12))), [('break',)], None)]),
+                   ('return', v('n'))]),
+                 P0(('call', 'down', [num(3)])), P0(v('n'))], []))
+    out.append(([('define', 'ramp', ['brt'],
+                  [('repeat', ('count', num(3)), [P0(v('brt')), ('assign', 'brt', add(v('brt'), num(10)))]),
+                   ('repeat', ('range', 'k', num(1), num(2)), [('assign', 'brt', add(v('brt'), v('k')))]),
+                   ('return', v('brt'))]),
+                 ('repeat', ('range', 'brt', num(1), num(3)),
+                  [P0(v('brt')), P0(('call', 'ramp', [num(50)])), P0(v('brt'))]),
+                 P0(v('brt'))], []))
     # lights that were never given a label, a group or a location report the empty string: a blank
     # name is a name like any other (it sorts first) — bound once, counted for the range
     blank = [{'label': '', 'group': '', 'location': 'Home', 'kind': 'plain'},
